@@ -340,17 +340,19 @@ impl_wide_float!(
     }
 );
 
+// `f32x4::recip` and `f32x8::recip` are the approximate reciprocal instructions
+// (about 12 bits of precision) on x86, so the division is used for all types.
 impl Recip for f32x4 {
     #[inline]
     fn recip(self) -> Self {
-        f32x4::recip(self)
+        f32x4::ONE / self
     }
 }
 
 impl Recip for f32x8 {
     #[inline]
     fn recip(self) -> Self {
-        f32x8::recip(self)
+        f32x8::ONE / self
     }
 }
 
